@@ -35,13 +35,20 @@ func (o c18Opts) w() c18WriteOpts {
 }
 
 type c18Case struct {
-	Family string    `json:"family"` // text native ops simplify
+	Family string    `json:"family"` // text native ops simplify multi scan
 	Doc    string    `json:"doc,omitempty"`
 	Layout string    `json:"layout,omitempty"` // text: model layout the document is written with first
 	Via    int       `json:"via"`
 	Opts   []c18Opts `json:"opts,omitempty"`
 	Ops    []c18Op   `json:"ops,omitempty"`
 	GoVal  string    `json:"go_value,omitempty"`
+	// multi-document entry points (family multi) and scan (Strict = leaves only)
+	Docs    []string `json:"docs,omitempty"`
+	Seps    []string `json:"seps,omitempty"`
+	Entry   string   `json:"entry,omitempty"`
+	Channel bool     `json:"channel,omitempty"`
+	Strict  bool     `json:"strict,omitempty"`
+	Form    int      `json:"form,omitempty"` // 0 string 1 octets 2 stream 3 file
 	Sweep  bool      `json:"sweep"`
 	Cell   string    `json:"cell,omitempty"`
 }
